@@ -103,8 +103,16 @@ def gen_project(rng, max_files=5, max_pats=4, shared_lines=True, mixed_endings=T
             else:
                 lines.append(("occ", [(raws[i], rng.choice(PRE), rng.choice(POST))], ""))
                 i += 1
+        # a pattern may occur on several lines of its file (each line at most once)
+        for raw in raws:
+            if rng.random() < 0.3:
+                for _ in range(rng.randint(1, 2)):
+                    lines.insert(rng.randint(0, len(lines)), ("occ", [(raw, rng.choice(PRE), rng.choice(POST))], ""))
         for _ in range(rng.randint(0, 5)):
             lines.insert(rng.randint(0, len(lines)), ("noise", rng.choice(NOISE)))
+        # the order in which the patterns are configured is independent of where their occurrences sit
+        raws = list(raws)
+        rng.shuffle(raws)
         layout.append({"name": name, "raws": raws, "sep": sep, "lines": lines,
                        "mixed": mixed_endings and rng.random() < 0.15 and len(lines) > 2,
                        "final_newline": rng.random() < 0.6, "bom": rng.random() < 0.1})
@@ -143,6 +151,15 @@ def vinfo_of_state(st):
     cal = [st[f] for f in refimpl.CAL_ORDER]
     return {"cal": cal, "major": st["major"], "minor": st["minor"], "patch": st["patch"], "bid": st["bid"], "tag": st["tag"],
             "pytag": refimpl.PYTAG[st["tag"]], "num": st["num"], "inc0": st["inc0"], "inc1": st["inc1"]}
+
+
+def ref_regex_for(raw, vp):
+    """independent (over-approximating for {pep440_version}) regex of a configured search pattern"""
+    src = raw.replace("{version}", vp)
+    if "{pep440_version}" in src:
+        src = src.replace("{pep440_version}", "\0")
+        return re.compile(refimpl.ref_regex(refimpl.tokenize(src)).replace("\\\0", "v?[0-9][0-9a-z.!+]*").replace("\0", "v?[0-9][0-9a-z.!+]*"))
+    return re.compile(refimpl.ref_regex(refimpl.tokenize(src)))
 
 
 def fixture_ok(pr):
